@@ -41,8 +41,10 @@ class SpiMasterHarness(Harness):
        regs: CSR front end only - register values visible to the core in this cycle (length, mosi, cs, cs_mode, loopback, start pulse); nsw: answer for the pending start; nx: completed transfers (CSR front end: bounded by max_xfers)"""
     live_queries = (("spi.master.stuck", BUSY, 0, (), "a transfer never completes (done stays 0 for ever)"),)
 
-    def __init__(self, name, dw=4, div=2, mode="raw", cs_mode=0, loopback=0, ncs=1, full_words=False, swords="few", lengths=None, csr=False, overlap=True, cap=None, nwords=None, max_xfers=2):
+    def __init__(self, name, dw=4, div=2, mode="raw", cs_mode=0, loopback=0, ncs=1, full_words=False, swords="few", lengths=None, csr=False, overlap=True, cap=None, nwords=None, max_xfers=2,
+                 build_div=None):
         self.name, self.dw, self.div, self.mode, self.cs_mode, self.loopback, self.ncs = name, dw, div, mode, cs_mode, loopback, ncs
+        self.build_div = build_div or div      # the divider the core is built for (reset value of the run-time programmable clk_divider register)
         self.words = words_for(dw, full_words)[:nwords] if nwords else words_for(dw, full_words)
         self.lengths = list(lengths or range(1, dw + 1))
         self.swords_kind = swords
@@ -61,7 +63,7 @@ class SpiMasterHarness(Harness):
 
     # -- construction ---------------------------------------------------------------------------
     def build(self):
-        self.dut = _MasterDUT(self.dw, self.div, self.mode, self.ncs, self.csr)
+        self.dut = _MasterDUT(self.dw, self.build_div, self.mode, self.ncs, self.csr)
         return self.dut
 
     def bind(self, D):
